@@ -70,6 +70,7 @@ func launch(name string) {
 		os.Stderr.Write([]byte("start daemon: " + err.Error()))
 		return
 	} else {
+		verifPause("launch.afterStart")
 		binary.Write(os.Stdout, binary.LittleEndian, uint32(cmd.Process.Pid))
 	}
 
